@@ -355,11 +355,19 @@ def tecmp(seed, nepisodes, prefix):
     rng = random.Random(seed)
     for i in range(nepisodes):
         ops = [{'op': 'new'}]
+        prev = None
         for _ in range(40):
+            f = tecmp_good(rng)
+            r = rng.random()
+            if prev is not None and r < 0.12:
+                f = list(prev)                                   # the same message again
+            elif prev is not None and r < 0.3 and len(f) >= 4 and len(prev) >= 4:
+                f[1:4] = prev[1:4]                               # another message with the same device id and counter
+            prev = f
             if rng.random() < 0.3:
-                ops.append({'op': 'tdecode', 'in': tecmp_good(rng)})        # the static TECMP decoder, directly
+                ops.append({'op': 'tdecode', 'in': f})        # the static TECMP decoder, directly
             else:
-                ops.append({'op': 'decode', 'in': tecmp_good(rng), 'pendBefore': True})
+                ops.append({'op': 'decode', 'in': f, 'pendBefore': True})
         yield {'id': '%s%d' % (prefix, i), 'comp': 'dec', 'ops': ops}
 
 
